@@ -5,7 +5,7 @@ open Pox Pox.Proto Pox.Packet Pox.Actions
 
 /-! Line-protocol driver for C12.
 
-  {"var":{"d7":b,"d8":b,"c121":b,"c122":b}, "ports":[{"no":n,"hw":hex,"config":n,"state":n},…], "ops":[op,…]}
+  {"var":{"d7":b,"d8":b,"c121":b,"c122":b}, "ports":[{"no":n,"hw":hex,"config":n,"state":n},…], "bufs":n (max_buffers, default 4096), "ops":[op,…]}
     op = {"op":"portmod","port":n,"hw":hex,"config":n,"mask":n} | {"op":"setconfig","flags":n,"miss":n}
        | {"op":"flow","in_port":n|null,"acts":[act,…]} | {"op":"pktout","in_port":n,"acts":[act,…],"data":hex}
        | {"op":"rx","port":n,"data":hex[,"nopd":true]} | {"op":"link","port":n,"down":b}
@@ -15,7 +15,7 @@ open Pox Pox.Proto Pox.Packet Pox.Actions
         | {"a":"enqueue","port":n,"queue":n} | {"a":"vendor","v":n}
   → {"outs":[[out,…] per completed op], "exc":null|"TypeError"|…, "ports":[{"no","config","state","rx_p","rx_b","tx_p","tx_b"}],
      "spec":[null | [out,…] per completed op]}      (`spec` = the declarative specification of a pktout / rx op)
-    out = {"k":"frame","port":n,"data":hex} | {"k":"pin","in_port":n,"reason":n,"data":hex,"total":n}
+    out = {"k":"frame","port":n,"data":hex} | {"k":"pin","in_port":n,"reason":n,"data":hex,"total":n,"buffered":b}
         | {"k":"error","type":n,"code":n} | {"k":"port_status","port":n,"config":n,"state":n}
   The run stops at the first op that raises (the Python state after an exception is not modelled). -/
 
@@ -69,8 +69,8 @@ def opOfJ (j : J) : Except String Op := do
 
 def outJ : Out → J
   | .frame p d => J.mk [("k", J.str "frame"), ("port", J.ofNat p), ("data", J.ofBytes d)]
-  | .packetIn p r d t => J.mk [("k", J.str "pin"), ("in_port", J.ofNat p), ("reason", J.ofNat r), ("data", J.ofBytes d),
-                                ("total", J.ofNat t)]
+  | .packetIn p r d dl b => J.mk [("k", J.str "pin"), ("in_port", J.ofNat p), ("reason", J.ofNat r),
+                                  ("data", J.ofBytes (pinData d dl b)), ("total", J.ofNat d.length), ("buffered", J.bool b)]
   | .error t c => J.mk [("k", J.str "error"), ("type", J.ofNat t), ("code", J.ofNat c)]
   | .portStatus p c s => J.mk [("k", J.str "port_status"), ("port", J.ofNat p), ("config", J.ofNat c), ("state", J.ofNat s)]
 
@@ -80,9 +80,9 @@ def portJ (sw : Sw) (p : Port) : J :=
         ("rx_b", J.ofNat s.rxB), ("tx_p", J.ofNat s.txP), ("tx_b", J.ofNat s.txB)]
 
 def specOf (sw : Sw) : Op → J
-  | .packetOut acts f inPort => J.arr ((Spec.emitted sw acts f inPort).map outJ)
-  | .rx f inPort wire => J.arr ((Spec.rxOuts sw f inPort wire).map outJ)
-  | .rxObj f inPort => J.arr ((Spec.rxObjOuts sw f inPort).map outJ)
+  | .packetOut acts f inPort => J.arr ((settle sw.bufFree (Spec.emitted sw acts f inPort)).2.map outJ)
+  | .rx f inPort wire => J.arr ((settle sw.bufFree (Spec.rxOuts sw f inPort wire)).2.map outJ)
+  | .rxObj f inPort => J.arr ((settle sw.bufFree (Spec.rxObjOuts sw f inPort)).2.map outJ)
   | _ => J.null
 
 def loop (var : Variant) : Sw → List Op → List J → List J → Sw × List J × List J × Option String
@@ -99,7 +99,8 @@ def handle (j : J) : Except String J := do
   let ports ← (← j.array "ports").mapM fun p => do
     pure ({ no := ← p.nat "no", hw := ← p.bytes "hw", config := ← p.nat "config", state := ← p.nat "state" } : Port)
   let ops ← (← j.array "ops").mapM opOfJ
-  let (sw, outs, specs, exc) := loop var { ports := ports, stats := ports.map fun p => { no := p.no } } ops [] []
+  let bufs := (← j.optNat "bufs").getD 4096
+  let (sw, outs, specs, exc) := loop var { ports := ports, stats := ports.map fun p => { no := p.no }, bufFree := bufs } ops [] []
   pure (J.mk [("outs", J.arr outs), ("exc", match exc with | some e => J.str e | none => J.null),
               ("ports", J.arr (sw.ports.map (portJ sw))), ("spec", J.arr specs)])
 
